@@ -487,15 +487,15 @@ func Drive(o Options) int {
 		_ = v
 	}
 	cov := map[string]interface{}{
-		"evaluations":         evaluations,
-		"distinct_nontrivial": distinct,
-		"rule":                ck.Rule,
-		"samples":             samples,
-		"monitor_events":      stats,
-		"inconclusive":        len(inconcl),
+		"evaluations":             evaluations,
+		"distinct_nontrivial":     distinct,
+		"rule":                    ck.Rule,
+		"samples":                 samples,
+		"monitor_events":          stats,
+		"inconclusive":            len(inconcl),
 		"known_findings_observed": knownSeen,
-		"worker_restarts":     plain.restarts,
-		"jobs":                jobs,
+		"worker_restarts":         plain.restarts,
+		"jobs":                    jobs,
 	}
 	if ck.Exhaustive {
 		cov["exhaustive"] = true
